@@ -98,6 +98,7 @@ class State:
         self.ghost = {"SLEPT": Val("Real", z3.RealVal(0))}
         self.suspend_heap = None
         self.spec_side = []
+        self._pc_ids = set()
         self.trail = []          # outcomes chosen for contract calls on this path (callee:ok / callee:ExcClass)
         self.suspend_ghost = None
         self.label = label
@@ -204,6 +205,10 @@ class State:
         c = z3.simplify(c) if not z3.is_quantifier(c) else c
         if z3.is_true(c):
             return
+        cid = c.get_id()
+        if cid in self._pc_ids:
+            return
+        self._pc_ids.add(cid)
         self.pc.append(c)
         if not has_quantifier(c):
             # the per-path feasibility solver only sees the quantifier-free facts (an over-approximation of
@@ -314,6 +319,11 @@ class State:
         return self.alloc
 
     def hset(self, key, arr):
+        # name every heap version (SSA): queries stay small and instances share the array constants
+        if z3.is_app(arr) and arr.num_args() > 0:
+            nm = z3.Const(self.fresh_name("hp_" + "".join(ch if ch.isalnum() else "_" for ch in key)), arr.sort())
+            self.assume(nm == arr)
+            arr = nm
         self.heap[key] = arr
         self.written.add(key)
 
